@@ -4,7 +4,9 @@ harness/overlay/lib/controller/federation/zz_verif_c20_test.go (same case line, 
 The stub backends of the Go driver (scripted paging behaviour per call) are mirrored here by
 `scriptBackend`; the algorithm under test is `ArvVerif.C20.run`, which is generic in the backends.
 Where Go is nondeterministic (which failing cluster's error is returned) the result line carries
-the allowed set: `err 404|502`.
+the allowed set: `err 404|502`. Scripts with a `w` action (a backend that waits for the context to be
+cancelled) are run through `ArvVerif.C20.runCancel`: the allowed errors are those of the clusters
+that failed by themselves.
 -/
 import ArvVerif.Base.Loop
 import ArvVerif.Model.C20
@@ -44,11 +46,13 @@ inductive Ord where
   | f | r | o (n : Nat)
 
 inductive Act where
+  | wait                      -- waits for the context to be cancelled, then fails (no HTTP status)
   | err (status : Nat)
   | page (k : Option Nat) (ord : Ord) (pre : Bool) (inj : List Obj)
 
 def actOf? (s : List Char) : Option Act :=
   match s with
+  | ['w'] => some .wait
   | 'e' :: rest => some (.err ((natOf? rest).getD 0))
   | 'p' :: rest =>
     let (body, pre, injs) : List Char × Bool × Option (List Obj) :=
@@ -94,6 +98,7 @@ def rotate (n : Nat) (l : List Obj) : List Obj :=
 def scriptBackend (holdings : List Obj) (script : List Act) : Backend := fun o idx =>
   match script[idx]?.getD (.page none .f false []) with
   | .err s => .error s
+  | .wait => .error 0
   | .page k ord pre inj =>
     let m := holdings.filter (fun h => matchFilters h.uuid o.filters)
     let m := match ord with
@@ -138,7 +143,8 @@ def renderRun (r : Run) : String :=
     | .ok items => "ok " ++ joinC "," (pageUuids items)
     | .err ss =>
       let u := (ss.eraseDups.toArray.qsort (· < ·)).toList
-      "err " ++ "|".intercalate (u.map toString)
+      -- no possible first error although some cluster failed: a cancellation without a cause
+      if u.isEmpty then "deadlock" else "err " ++ "|".intercalate (u.map toString)
   let logs := r.log.filter (fun e => !e.2.isEmpty)
   let logs := (logs.map fun e => (String.ofList e.1, e.2)).toArray.qsort (fun a b => a.1 < b.1) |>.toList
   let body := if logs.isEmpty then "-" else
@@ -208,7 +214,16 @@ def step (line : String) : String :=
           maxItems := maxItems
           localB := scriptBackend (holdingsOf localId) (scriptFor localId)
           remotes := fun c => if rem.contains c then some (scriptBackend (holdingsOf c) (scriptFor c)) else none }
-      pure (renderRun (run cfg o))
+      -- a `w` action at index k of a backend's script: its calls from index k on see a cancelled context
+      let isWait : Act → Bool := fun a => match a with | .wait => true | _ => false
+      let cut : ClusterId → Option Nat := fun c =>
+        if c == localId || rem.contains c then
+          let sc := scriptFor c
+          let i := sc.findIdx isWait
+          if i < sc.length then some i else none
+        else none
+      let hasWait := scs.any (fun p => p.2.any isWait)
+      pure (renderRun (if hasWait then runCancel cfg o cut else run cfg o))
     res.getD "bad-op"
   | _ => "bad-op"
 
